@@ -156,6 +156,8 @@ def rand_text(rng: random.Random, prof: Profile) -> tuple[str, str]:
         body = body.replace('"', "")
         if body.startswith("lyric ") or body.startswith("section "):
             body = "_" + body
+    if rng.random() < 0.02:
+        body += rng.choice(["la ", "x", "é"]) * rng.choice([130, 260, 260, 1030, 1030, 4100])
     return kind, body
 
 
@@ -222,6 +224,12 @@ def rand_src(rng: random.Random, prof: Profile | None = None) -> ChartSrc:
                 meta[snake] = rng.choice(["bass", "rhythm"])
             else:
                 meta[snake] = rand_value(rng, prof)
+    if rng.random() < 0.15:
+        # whatever the profile focuses on, the rest of the file is sometimes not trivial: every numeric [Song] field set (Offset, Difficulty,
+        # PreviewStart, PreviewEnd …) — none of them moves, scales or filters anything outside the metadata
+        for snake, pascal, kind in FIELDS[1:]:
+            if kind == "int" and snake not in meta:
+                meta[snake] = rng.choice([1, 2, 2, 5, 30, 1000])
     tempo = rand_tempo(rng, prof, res)
     last = tempo[-1][0]
     tss = [(0, rng.randint(1, 12), rng.choice([None, None, 0, 1, 2, 3, 4]))]
@@ -265,6 +273,9 @@ def rand_src(rng: random.Random, prof: Profile | None = None) -> ChartSrc:
 
 
 def rand_value(rng: random.Random, prof: Profile) -> str:
+    if rng.random() < 0.025:
+        # lengths at which line buffers and "nobody writes that much" limits sit
+        return rng.choice(["x", "é", "ab ", "-"]) * rng.choice([130, 260, 260, 1030, 1030, 4100]) + "!"
     if rng.random() < prof.tricky_text:
         atoms = ["a", "B c", "\"", "=", " = ", "Name", "Artist = x", "Resolution = 1", ", 2018", "é", "日本", " ", "\t", "song.ogg",
                  "\"x\"", "0", "12", "[", "}", "e\u0301", "\u212b", "\u2126", "\u3000", "\xa0", "%s", "100%", "{0}", "\\", "//", "AC//DC", " // ", "\\\\", "\\\\nas\\share", "\\\"", "\u201c", "\u201d", "#", ";"]
